@@ -628,7 +628,8 @@ def check_case(runner, ids, mods):
             probs.extend(p)
             info["rounded"] += r
             info["skipped"] += int(s)
-        info["relations"].append(relation.split("|")[0])
+        info["relations"].append("others-changed" if relation.startswith("changes") else "permutation" if relation.startswith("differs")
+                                 else "alone-vs-batch")
 
     if mods:
         kind = MOD_LABEL[sorted(mods.values())[0]]
@@ -824,9 +825,9 @@ def record(acc, runner, case, probs, info):
         for i in ids:
             acc.outcome(f"sampler:{out['decisions'][i][:6]}")
     elif out is not None:
-        rel = "+".join(sorted(set(info["relations"]))) or "reference"
-        acc.outcome(f"{part}:{'rounding-level differences' if info['rounded'] else 'bit-identical'}:{rel[:60]}")
-    acc.count(f"{part}: outputs equal within rounding but not bit-identical", info["rounded"])
+        rel = "+".join(sorted(set(info["relations"]))) or "reference execution"
+        acc.outcome(f"{part}:{rel}:{'equal within tolerance' if info['rounded'] else 'bit-identical'}")
+    acc.count(f"{part}: outputs equal within the stated tolerance but not bit-identical", info["rounded"])
     acc.count(f"{part}: comparisons skipped (uniform draw within rounding of the acceptance ratio)", info["skipped"])
     for sig, msg in probs:
         acc.violation(sig, msg, case)
